@@ -56,6 +56,7 @@ def case_singlet(log, order, method, shape="complex"):
     m = EvoMethods[method]
     log.encode(sg.dispatcher, ad.exp_matrix_2D)
     rp = (MOD, "replay_singlet", {"order": order, "method": method})
+    log.register_replay("fallback:replay_singlet", rp, _sampler)
 
     def run():
         a0, a1 = SR.var("a0"), SR.var("a1")
@@ -103,6 +104,7 @@ def case_uvec(log, order, is_exact):
     ns, sg, ei, as4, ad = kernel_modules()
     log.encode(sg.r_vec, sg.u_vec)
     rp = (MOD, "replay_singlet", {"order": order, "method": "PERTURBATIVE_EXACT" if is_exact else "PERTURBATIVE_EXPANDED"})
+    log.register_replay("fallback:replay_singlet", rp, _sampler)
 
     def run():
         bet, bs, _ = sym_rge(order) if order < 4 else sym_rge(3)
@@ -134,6 +136,7 @@ def case_qed_iterate(log, order):
     log.encode(sq.eko_iterate, sq.dispatcher)
     oq, oe = order
     rp = (MOD, "replay_qed", {"order": list(order)})
+    log.register_replay("fallback:replay_qed", rp, _sampler)
     v = (1, 1, 1, 0)
 
     def run():
@@ -183,6 +186,7 @@ def case_sv(log, order, nf, qed):
     log.encode(ex.singlet_variation, ex.singlet_variation_qed, xp.gamma_variation, xp.gamma_variation_qed)
     oq, oe = order
     rp = (MOD, "replay_sv", {"order": list(order), "nf": nf, "qed": qed})
+    log.register_replay("fallback:replay_sv", rp, _sampler)
 
     def run():
         a_s, a_em, L = SR.var("a_s"), SR.var("a_em"), SR.var("L")
@@ -233,6 +237,7 @@ def case_ome(log, morder, method):
     qk = sym_module("eko.evolution_operator.quad_ker")
     log.encode(qk.build_ome)
     rp = (MOD, "replay_ome", {"morder": morder, "method": method})
+    log.register_replay("fallback:replay_ome", rp, _sampler)
     v = (1, 1, 1)
 
     def run():
